@@ -153,7 +153,12 @@ class NamespaceMixin(object):
            cxx_template -
         """
         # parse declaration to find out what it is.
-        fullast = declast.check_decl(decl, namespace=self)
+        # A block shares the symbols of its enclosing library, namespace or
+        # class; parse in that scope so constructors/destructors are recognized.
+        namespace = self
+        while isinstance(namespace, BlockNode):
+            namespace = namespace.parent
+        fullast = declast.check_decl(decl, namespace=namespace)
         template_parameters = []
         if isinstance(fullast, declast.Template):
             # Create list of template parameter names
